@@ -245,30 +245,18 @@ def r3_byte_source(ctx) -> None:
         r.ok("C04.R3", tp.qual, "to_plain(regex=True) gives the characters of the value: string parts unchanged", tp.loc)
     else:
         r.violation("C04.R3", tp.qual, f"to_plain(regex=True) of {parts} = {got!r}", f"specified {chars!r}: the unescaped rendering no longer passes string parts through unchanged", tp.loc)
-    # what the Base64 modifiers encode is bytes(val) (plus padding), never a rendering of the value as text
+    # what the Base64 modifiers encode is bytes(val) (plus padding), never a rendering of the value as text: modify() interpreted
+    # on a stand-in value whose bytes differ from each of its text forms
+    payload = b"\x01PAYLOAD\xfe"
     for cn in ("SigmaBase64Modifier", "SigmaBase64OffsetModifier"):
         bf = prog.func(f"{M}.{cn}.modify")
-        encs = [c for c in walk_no_nested(bf.node) if isinstance(c, ast.Call) and call_name(c).split(".")[-1] == "b64encode"]
-        if not encs:
-            raise AnalysisError(f"{bf.qual}: b64encode call not found")
-        for c in encs:
-            exprs = [c.args[0]]
-            seen: set[str] = set()
-            texts = []
-            while exprs:
-                e = exprs.pop()
-                texts.append(unparse(e))
-                for nm in (x for x in ast.walk(e) if isinstance(x, ast.Name)):
-                    if nm.id not in seen and nm.id not in ("val", "self", "bytes", "i", "len"):
-                        seen.add(nm.id)
-                        exprs.extend(v for v in assignments_to(bf.node, nm.id) if isinstance(v, ast.AST) and not isinstance(v, (ast.For, ast.comprehension, ast.With, ast.ExceptHandler)))
-            joined = " ; ".join(texts)
-            loc = f"{bf.module.relpath}:{c.lineno}"
-            textual = [k for k in ("str(val)", "val.to_plain", "val.original", ".encode(", "repr(") if k in joined]
-            if "bytes(val)" in joined and not textual:
-                r.ok("C04.R3", bf.qual, f"b64encode({short(c.args[0], 50)}) encodes bytes(val)", loc)
-            else:
-                r.violation("C04.R3", bf.qual, short(c, 100), f"the encoded byte string is not bytes(val) ({textual or 'no bytes(val)'}): a textual rendering of the value contains the escaping backslashes of literal '*' and '?' (and is stale for values built by earlier modifiers), so other bytes than the payload are encoded", loc)
+        kind, got = modifier_outcome(ctx, cn, ["text-form"], payload=payload)
+        want = [base64.b64encode(payload).decode()] if cn == "SigmaBase64Modifier" else _reference_variants(payload)
+        if kind == "texts" and sorted(got) == sorted(want):
+            r.ok("C04.R3", bf.qual, "the encoded byte string is bytes(val): interpreted on a value whose bytes differ from its text forms", bf.loc)
+        else:
+            textual = [nm for nm, t in (("str(val)", b"text-form"), ) if kind == "texts" and any(base64.b64encode(t).decode()[:6] in g or g in base64.b64encode(b"  " + t).decode() for g in got if g)]
+            r.violation("C04.R3", bf.qual, f"b64encode(...) of a value with bytes {payload!r} and text 'text-form': {got!r}", f"the encoded byte string is not bytes(val) ({textual or 'no bytes(val)'}; specified {want}): a textual rendering of the value contains the escaping backslashes of literal '*' and '?' (and is stale for values built by earlier modifiers), so other bytes than the payload are encoded", bf.loc)
     r.floor("C04.R3", 4)
 
 
